@@ -154,6 +154,7 @@ def c20_jobs(tier, seed):
     J('targets from config file without final newline', opts=dict(base, **{'removal-marker-target-config': ['t.cfg']}), files={'t.cfg': 'zz\ny'})
     J('targets from config file and flag', opts=dict(base, **{'removal-marker-target-config': ['t.cfg'], 'removal-marker-target-name': ['x']}), files={'t.cfg': 'y\n'})
     J('config file equals repeated flags (flags side)', opts=dict(base, **{'removal-marker-target-name': ['x', 'y']}))
+    J('empty string as target name by flag', opts=dict(base, **{'removal-marker-target-name': ['', 'y']}), name1='')
     J('empty config file', opts=dict(base, **{'removal-marker-target-config': ['t.cfg']}), files={'t.cfg': ''}, name1_len=2)
     # spelling options and times
     J('custom delimiters and tag names', opts=dict(base, **{'delimiter-start': ['/* <'], 'delimiter-end': ['> */'], 'time-limited-tag-name': ['tl'],
